@@ -278,18 +278,19 @@ def body_c11(tier, seed, rep, only_prop=False, scale=1):
         if degenerate:
             rep.count("degenerate-domain")
     # large inputs of the claim: up to 1000 labels with a conflict cluster of up to 200 labels
-    for k in range(common.count(tier, 1, 8)):
+    for k in range(common.count(tier, 2, 8)):
         nlab = 300 if tier == "quick" else rng.choice([400, 1000])
-        cluster = rng.choice([150, 200])
+        cluster = 200 if k == 0 else rng.choice([150, 199, 200])      # the largest cluster of the claim is always tried
         # one conflict cluster of `cluster` labels at one instant (it spreads over at most cluster * 13 px from the axis start); every other
         # label keeps clear of it and of its neighbours (grid with a little jitter), so that no solver block exceeds the cluster — the claim
-        # is "conflict clusters of up to 200 labels", larger ones are known finding F3
+        # is "conflict clusters of up to 200 labels", larger ones are known finding F3.  The first input puts the whole cluster at exactly one
+        # instant in one layer: the solver then walks the block's chain from one end, the deepest walk a cluster of that size can cause
         rest = nlab - cluster
         gap = 42000.0 / rest
-        ts = [500 + rng.random() * 0.001 for _ in range(cluster)] + [7500 + (k + 0.5) * gap + rng.uniform(-7, 7) for k in range(rest)]
+        ts = [500 + (0 if k == 0 else rng.random() * 0.001) for _ in range(cluster)] + [7500 + (k + 0.5) * gap + rng.uniform(-7, 7) for k in range(rest)]
         widths = [rng.choice([10, 5]) for _ in range(cluster)] + [rng.choice([10, 5] if gap * 0.4 < 30 else [10, 20, 5]) for _ in range(rest)]
         spec = {"kind": "number", "data": [{"time": t, "width": w} for t, w in zip(ts, widths)],
-                "options": {"direction": rng.choice(["up", "right"]), "labella": {"algorithm": rng.choice(["overlap", "none"]), "maxPos": rng.choice([None, 20000])}, "domain": [0, 50000], "initialWidth": 20040, "initialHeight": 20040},
+                "options": {"direction": rng.choice(["up", "right"]), "labella": ({"algorithm": "none", "maxPos": None} if k == 0 else {"algorithm": rng.choice(["overlap", "none"]), "maxPos": rng.choice([None, 20000])}), "domain": [0, 50000], "initialWidth": 20040, "initialHeight": 20040},
                 "opt_mode": "given"}
         rep.count("large-input")
         for backend in ("svg", "tikz"):
